@@ -342,7 +342,11 @@ class Exec:
         if isinstance(b, VNone):
             if isinstance(a, VOpt):
                 return a.isnone
+            if isinstance(a, VOpaque):
+                return a.term == (S.ID_NONE if a.what == "id" else S.VS_NONE)
             return z3.BoolVal(False)
+        if isinstance(a, VOpaque) and isinstance(b, VOpaque):
+            return a.term == b.term
         if isinstance(a, VOpt) and isinstance(b, VOpt):
             return z3.Or(z3.And(a.isnone, b.isnone), z3.And(z3.Not(a.isnone), z3.Not(b.isnone), self.eq(a.val, b.val)))
         if isinstance(a, VOpt):
@@ -769,6 +773,16 @@ class Exec:
                 return VOpaque(B.b_id(t), "id")
             if attr == "voter_set":
                 return VOpaque(B.b_vs(t), "vs")
+        if isinstance(base, VRec) and base.cls == "StateRef":
+            t = base.term
+            if attr == "elected":
+                return VSeq(S.st_elected(t), S.CSet)
+            if attr == "eliminated":
+                return VSeq(S.st_eliminated(t), S.CSet)
+            if attr == "remaining":
+                return VSeq(S.st_remaining(t), S.CSet)
+            if attr == "round_number":
+                return VNum(S.st_round(t), "int")
         if isinstance(base, VRec) and base.cls == "Profile":
             P = S.ProfileS
             t = base.term
@@ -876,9 +890,36 @@ class Exec:
         elif k == z3.Z3_OP_SEQ_UNIT:
             st.facts.append(z3.Implies(j == 0, el == t.children()[0]))
 
+    def rev(self, st, v: VSeq) -> VSeq:
+        """reversed sequence: uninterpreted function per sort with its defining axioms"""
+        key = str(v.term.sort())
+        fn = _REV.get(key)
+        if fn is None:
+            fn = z3.Function("seq_rev_" + "".join(ch if ch.isalnum() else "_" for ch in key), v.term.sort(), v.term.sort())
+            _REV[key] = fn
+        r = fn(v.term)
+        L = z3.Length(v.term)
+        i = z3.Int(S.fresh_name("ri"))
+        st.facts.append(z3.Length(r) == L)
+        st.facts.append(z3.ForAll([i], z3.Implies(z3.And(i >= 0, i < L), r[i] == v.term[L - 1 - i])))
+        return VSeq(r, v.elem, v.kind)
+
     def slice(self, base, sl: ast.Slice, st):
         if sl.step is not None:
-            raise OutOfReach("slice step")
+            stp = self.eval(sl.step, st)
+            if not (is_concrete_int(stp) and concrete_int(stp) == -1 and sl.upper is None):
+                raise OutOfReach("slice step")
+            if isinstance(base, (VTup, VPyList)):
+                base = self.as_seq(base)
+            if not isinstance(base, VSeq):
+                raise OutOfReach("reverse slice of non-sequence")
+            if sl.lower is None:
+                return self.rev(st, base)
+            lo = self.eval(sl.lower, st).term
+            L = z3.Length(base.term)
+            if not self.known(st, z3.And(lo >= 0, lo < L)):
+                raise OutOfReach("reverse slice with a start that is not known to be a valid non-negative index")
+            return self.rev(st, VSeq(z3.Extract(base.term, z3.IntVal(0), z3.simplify(lo + 1)), base.elem, base.kind))
         if isinstance(base, VTup):
             lo = self.eval(sl.lower, st) if sl.lower else None
             hi = self.eval(sl.upper, st) if sl.upper else None
@@ -1192,6 +1233,9 @@ class Exec:
         return [("fall", st, None)]
 
     s_ImportFrom = s_Import
+
+
+_REV: dict = {}
 
 
 class _Unbound:
